@@ -9,7 +9,7 @@ from harness import common, sess
 
 THEOREMS = ['C13_generator_range', 'C13_default_range', 'C13_fresh_number', 'C13_generators_only_advanced', 'C13_resumed_numbers_are_fresh', 'C13_at_most_once',
             'C13_attribution_sound', 'C13_store_keyed_invariant', 'C13_unmatched_attributes_nothing', 'C13_other_type_leaves_request',
-            'C13_no_keyerror', 'C13_nonvacuous']
+            'C13_no_keyerror', 'C13_nonvacuous', 'C13_resume_nonvacuous']
 IMPORTS = ['AV.Model.Base', 'AV.Model.Seq']
 
 HANDLED_RESPONSES = (0x80000004, 0x80000015, 0x80000006, 0x80000009, 0x80000001, 0x80000002, 0x80000000)
